@@ -85,6 +85,7 @@ class Closure:
         self.cls = cls
         self.module = module
         self.defining_stack = defining_stack
+        self.guards = ()
 
 
 class Frame:
@@ -413,6 +414,7 @@ class Interp:
         pf = PseudoFunc(fr.fi, s, s.name)
         cid = self.fresh("c")
         self.closures[cid] = Closure(s, pf, dict(fr.env), fr.self_term, fr.cls, fr.module, fr.stack)
+        self.closures[cid].guards = fr.guards
         # closures see later rebinding of captured names only through this snapshot plus
         # the enclosing closure chain
         self.closures[cid].outer = fr.closure_env
@@ -943,6 +945,7 @@ class Interp:
         pf = PseudoFunc(fr.fi, e, "lambda@%d" % e.lineno)
         cid = self.fresh("c")
         self.closures[cid] = Closure(e, pf, dict(fr.env), fr.self_term, fr.cls, fr.module, fr.stack)
+        self.closures[cid].guards = fr.guards
         self.closures[cid].outer = fr.closure_env
         return T("closure", cid)
 
@@ -1276,7 +1279,15 @@ class Interp:
             kwargs.append((k.arg if k.arg is not None else "**", self.eval(fr, k.value)))
         return self.do_call(fr, e, f, recv, fname, args, kwargs)
 
-    def do_call(self, fr, node, f, recv, fname, args, kwargs):
+    def do_call(self, fr, node, f, recv, fname, args, kwargs, pre=()):
+        # calling a functools.partial(g, a, b) object: g(a, b, *args).  The event keeps the arguments written at the call
+        # site in `args` and what the partial pre-binds in `pre` (so a task's argument is args[0] however it is dispatched)
+        if f.op == "call" and tm.callee_name(f) == "functools.partial" and f.args[1] and not f.args[2] and recv is None:
+            inner = f.args[1][0]
+            pre = tuple(f.args[1][1:]) + tuple(pre)
+            if inner.op == "attr":
+                return self.do_call(fr, node, inner, inner.args[0], inner.args[1], args, kwargs, pre)
+            return self.do_call(fr, node, inner, None, None, args, kwargs, pre)
         # super()
         if f.op == "ext" and f.args[0] == "builtins.super" and not args:
             return T("super", fr.self_term if fr.self_term is not None else unknown("self"), fr.cls.fq if fr.cls else "?")
@@ -1287,8 +1298,10 @@ class Interp:
             recv = f.args[0]
         name = tm.callee_name(mkcall(f))
         ev = self.emit(fr, "call", node, f=f, args=tuple(args), kwargs=tuple(kwargs), recv=recv,
-                       name=name, method=fname, resolved=[t[0] for t in targets], via=None, result=None)
+                       name=name, method=fname, resolved=[t[0] for t in targets], via=None, result=None, pre=tuple(pre))
         result = None
+        if pre:
+            args = list(pre) + list(args)
         # heap effects of list mutators on known allocations
         if recv is not None and fname in LIST_MUTATORS and args:
             for b in tm.alts(recv):
@@ -1344,11 +1357,21 @@ class Interp:
             cbargs = [unknown("acc"), el]
         if cb is None:
             return
+        # functools.partial(g, a, b): the callable is g, with a, b in front of the arguments the dispatcher supplies
+        pre = []
+        while cb.op == "call" and tm.callee_name(cb) == "functools.partial" and cb.args[1] and not cb.args[2]:
+            pre = list(cb.args[1][1:]) + pre
+            cb = cb.args[1][0]
         targets = self.resolve(fr, cb, None, None)
+        if not targets and cb.op == "attr":
+            # a bound method value (self._task): resolve the method on the receiver
+            targets = self.resolve(fr, cb, cb.args[0], cb.args[1])
         for fi, self_t, kind, clo in targets:
+            # the event lists the arguments the DISPATCHER supplies (args[0] is the task argument); what a partial pre-binds
+            # is recorded separately
             ev = self.emit(fr, "call", node, f=cb, args=tuple(cbargs), kwargs=(), recv=None, name=fi.fq,
-                           method=None, resolved=[fi], via=via, result=None)
-            r = self.inline(fr, fi, ([self_t] if self_t is not None else []) + cbargs, {}, node, self_t, clo)
+                           method=None, resolved=[fi], via=via, result=None, pre=tuple(pre))
+            r = self.inline(fr, fi, ([self_t] if self_t is not None else []) + pre + list(cbargs), {}, node, self_t, clo)
             ev.d["result"] = r
 
     def resolve(self, fr, f, recv, fname):
@@ -1503,6 +1526,9 @@ class Interp:
             if fi.is_classmethod:
                 nfr.cls_term = env[names[0]]
         nfr.guards, nfr.loops, nfr.trys = fr.guards, fr.loops, fr.trys
+        if clo is not None and getattr(clo, "guards", None):
+            # a closure object exists only on the path that created it: what runs inside it runs under those conditions too
+            nfr.guards = fr.guards + tuple(g for g in clo.guards if g not in fr.guards)
         # visible object fields: share the caller's field bindings
         for k, v in fr.env.items():
             if isinstance(k, tuple):
